@@ -92,12 +92,20 @@ ModPow2(a, e) ==
            d == DivMod(a, 2 ^ s) IN
        Add(N(d.r), MulInt(ModPow2(d.q, e - s), 2 ^ s))
 
-RECURSIVE Pow2(_)
-Pow2(e) == IF e = 0 THEN N(1) ELSE IF e >= 16 THEN MulInt(Pow2(e - 16), 65536) ELSE N(2 ^ e)
-
-U16MAX == N(65535)
-U32MAX == Sub(Pow2(32), N(1))
-U64MAX == Sub(Pow2(64), N(1))
+RECURSIVE Pow2R(_)
+Pow2R(e) == IF e = 0 THEN N(1) ELSE IF e >= 16 THEN MulInt(Pow2R(e - 16), 65536) ELSE N(2 ^ e)
+\* the powers used by the specifications are literals (TLC does not cache definitions that go
+\* through RECURSIVE operators); the ASSUME below ties them to their meaning
+P2_32  == <<7296, 9496, 42>>
+P2_61  == <<3952, 1369, 92, 5843, 230>>
+P2_63  == <<5808, 5477, 368, 3372, 922>>
+P2_64  == <<1616, 955, 737, 6744, 1844>>
+Pow2(e) == CASE e = 32 -> P2_32 [] e = 61 -> P2_61 [] e = 63 -> P2_63 [] e = 64 -> P2_64 [] OTHER -> Pow2R(e)
+U16MAX == <<5535, 6>>
+U32MAX == <<7295, 9496, 42>>
+U64MAX == <<1615, 955, 737, 6744, 1844>>
+ASSUME /\ P2_32 = Pow2R(32) /\ P2_61 = Pow2R(61) /\ P2_63 = Pow2R(63) /\ P2_64 = Pow2R(64)
+       /\ U16MAX = N(65535) /\ U32MAX = Sub(P2_32, N(1)) /\ U64MAX = Sub(P2_64, N(1))
 FitsU32(a) == Le(a, U32MAX)
 FitsU64(a) == Le(a, U64MAX)
 
